@@ -186,6 +186,13 @@ pub fn shutdown_subsets(r: &mut Runner) {
     if regd.is_empty() {
         return;
     }
+    // precondition (DESIGN 5.C14): every registered vAMM names this insurance fund as the one allowed to close it;
+    // a registered vAMM re-pointed elsewhere cannot be closed by this fund at all
+    let foreign = (0..r.w.addrs.vamms.len()).any(|i| r.obs.vamms[i].ok && r.obs.vamms[i].registered && r.obs.vamms[i].insurance_fund != ifund);
+    if foreign {
+        r.ev.count("shutdown_probe_skipped_foreign_insurance_fund");
+        return;
+    }
     let n = regd.len();
     for mask in 0..(1u32 << n) {
         let closed_before: Vec<usize> = regd.iter().enumerate().filter(|(j, _)| mask & (1 << j) != 0).map(|(_, i)| *i).collect();
